@@ -15,7 +15,6 @@ use crate::internal::minialloc::vacc as macc;
 use crate::internal::stream::vacc as sacc;
 use crate::internal::{ObjType, Validation};
 use crate::CompoundFile;
-use std::io::Read;
 
 pub const NO: usize = SEC * (1 + 5 + 3);
 pub type PO = PtrFile<NO>;
@@ -93,7 +92,6 @@ macro_rules! open_valid {
     ($name:ident, $strict:expr) => {
         #[kani::proof]
         #[kani::stub(std::fmt::format, stub_format)]
-        #[kani::stub(std::ffi::OsStr::to_str, stub_osstr_to_str)]
         #[kani::stub(crate::internal::path::cfb_uppercase_char, super::uptable::table_upper)]
         #[kani::unwind(140)]
         fn $name() {
@@ -104,7 +102,7 @@ macro_rules! open_valid {
             let v = if $strict { Validation::Strict } else { Validation::Permissive };
             let r = CompoundFile::open_internal(file, v, 1024);
             assert!(r.is_ok(), "C04/C16: a spec-valid file with an unusual layout (FAT in sector 1, directory chain 4 -> 0, red-black tree) is rejected");
-            let mut c = r.unwrap();
+            let c = r.unwrap();
             {
                 let g = c.minialloc.read().unwrap();
                 // C02/C04: the caches are exactly what the image encodes
@@ -123,24 +121,19 @@ macro_rules! open_valid {
                 }
                 assert!(ok, "C04/C02/C17: directory cache differs from the entries encoded in the image");
             }
-            // logical content through the API
-            assert!(c.is_stream("/S") && c.is_storage("/d") && c.exists("/o") && !c.exists("/x"), "C04/C09: lookups in a red-black tree written by another implementation");
-            let e = c.entry("/d").unwrap();
-            assert!(e.state_bits() == em[3].state, "C04/C17: metadata");
-            let mut s = c.open_stream("/s").unwrap();
-            let mut buf = [0u8; 100];
-            let mut got = 0;
-            while got < 100 {
-                let r = s.read(&mut buf[got..]);
-                assert!(r.is_ok(), "C04: reading a stream failed");
-                let n = r.unwrap();
-                assert!(n > 0, "C04: stream shorter than its size");
-                got += n;
+            // logical content: lookups (case-insensitive, red-black tree of another writer) and stream bytes
+            {
+                let mut g = c.minialloc.write().unwrap();
+                assert!(g.stream_id_for_name_chain(&["S"]) == Some(1) && g.stream_id_for_name_chain(&["o"]) == Some(2)
+                    && g.stream_id_for_name_chain(&["D"]) == Some(3) && g.stream_id_for_name_chain(&["x"]) == None,
+                    "C04/C09: lookups in a sibling tree written by another implementation");
+                let mut buf = [0u8; 100];
+                let r = sacc::read_data(&mut g, 1, 0, &mut buf);
+                assert!(r.is_ok() && r.unwrap() == 100, "C04: reading a stream failed");
+                let q = any_usize_below(100);
+                assert!(buf[q] == before[soff(3) + q], "C04: stream bytes differ from the content encoded in the file");
             }
-            let q = any_usize_below(100);
-            assert!(buf[q] == before[soff(3) + q], "C04: stream bytes differ from the content encoded in the file");
             kani::cover!(true, "end");
-            std::mem::forget(s);
             std::mem::forget(c);
         }
     };
